@@ -86,6 +86,38 @@ def search(ck, tier, seed):
                         r2 = attempt(fn, arg, ctx)
                         if r2[0] == "ok" and not (torch.equal(r1[1][0], r2[1][0]) and torch.equal(r1[1][1], r2[1][1])):
                             ck.finding("side-effect:repeat-call-differs:%s" % e["name"], "%s %s" % (e["name"], direction), case)
+    # a batch of ANOTHER dtype than the model's (float32 data into a float64 model and back): whether the call is accepted or
+    # refused, the model's parameters and buffers keep their values and dtypes, and a call with the model's own dtype afterwards
+    # returns what it returned before
+    for e in ents:
+        for mdt, xdt in ((torch.float64, torch.float32), (torch.float32, torch.float64)):
+            t = attempt(catalogue.build, e, seed, mdt, False)
+            if t[0] != "ok":
+                continue
+            t = t[1]
+            x, ctx = catalogue.sample_inputs(e, 3, seed + 6, mdt)
+            ck.case(("c13-cross-dtype", e["name"], str(mdt), str(xdt)), nontrivial=True)
+            ck.count("cross-dtype")
+            case = {"search": "cross-dtype", "entry": e["name"], "model_dtype": str(mdt), "input_dtype": str(xdt), "seed": seed}
+            with torch.no_grad():
+                r0 = attempt(t.forward, x, ctx)
+            if r0[0] != "ok":
+                continue
+            sd0 = copy.deepcopy(t.state_dict())
+            with torch.no_grad():
+                attempt(t.forward, x.to(xdt), None if ctx is None else ctx.to(xdt))
+                attempt(t.inverse, r0[1][0].to(xdt), None if ctx is None else ctx.to(xdt))
+            sd1 = t.state_dict()
+            if not state_equal(sd0, sd1):
+                changed = [k for k in sd0 if sd0[k].dtype != sd1[k].dtype or not torch.equal(sd0[k], sd1[k])]
+                ck.finding("side-effect:state-modified:eval:cross-dtype:%s" % e["name"],
+                           "%s (%s model) called with a %s batch in evaluation mode changed %s" % (e["name"], mdt, xdt, changed), case)
+                continue
+            with torch.no_grad():
+                r2 = attempt(t.forward, x, ctx)
+            if r2[0] == "ok" and not (torch.equal(r0[1][0], r2[1][0]) and torch.equal(r0[1][1], r2[1][1])):
+                ck.finding("side-effect:repeat-call-differs:cross-dtype:%s" % e["name"],
+                           "%s: the same %s call returns something else after a %s batch went through" % (e["name"], mdt, xdt), case)
     # distributions and flows: log_prob / sample do not modify arguments or (in eval mode) state
     from nflows.distributions import normal, discrete, mixture
     from nflows.flows.base import Flow
